@@ -497,9 +497,16 @@ void group_op(Ctx& cx, G g, Flat)
             if(n0 < G::max_size())
             {
                 g.resize((size_type)(n0 + 1));
-                size_type i = 0;
-                for(auto it = g.begin(); it != g.end(); ++it, ++i)
-                    if(i == n0) record_entry(cx, *it);
+                // the walk to the new last entry is the driver's own loop: with a hostile numInGroup it
+                // must not become the thing that is measured (flat groups jump, nested ones walk a bounded way)
+                if constexpr(Flat::value)
+                    record_entry(cx, *(g.begin() + static_cast<std::ptrdiff_t>(n0)));
+                else if(n0 <= 4096)
+                {
+                    size_type i = 0;
+                    for(auto it = g.begin(); it != g.end(); ++it, ++i)
+                        if(i == n0) record_entry(cx, *it);
+                }
             }
         }
         else
